@@ -311,9 +311,41 @@ def rule_select_zmq(ctx: Ctx) -> RuleResult:
             raise AnalysisError(f"{key}._loop: heappop / _entering_idle / `if not ready` not found")
         from ..rules.exc import ExcEngine
 
-        for x in pops + idle:
-            if not any(x not in ExcEngine._reach_without_edge(cfg, e, "T") for e in empties):
-                rr.add(finding("SIB", lp, x.stmt, f"`{norm(x.stmt, 50)}` can run although input is ready: alarms/idle would pre-empt pending input out of order", construct=f"{norm(x.stmt, 50)} outside `if not ready`"))
+        def is_empty_test(e):
+            return isinstance(e, ast.UnaryOp) and isinstance(e.op, ast.Not) and isinstance(e.operand, ast.Name) and e.operand.id in ready
+
+        def is_due_test(e):
+            """time.time() >= <alarm time>  /  <alarm time> <= time.time()"""
+            if not (isinstance(e, ast.Compare) and len(e.ops) == 1):
+                return False
+            l, r, op = e.left, e.comparators[0], e.ops[0]
+            now_l, now_r = ast.unparse(l) == "time.time()", ast.unparse(r) == "time.time()"
+            return (now_l and isinstance(op, (ast.GtE, ast.Gt))) or (now_r and isinstance(op, (ast.LtE, ast.Lt)))
+
+        def requires(e, pred):
+            if pred(e):
+                return True
+            return isinstance(e, ast.BoolOp) and isinstance(e.op, ast.And) and any(requires(v, pred) for v in e.values)
+
+        def timed_out_or_due(e):
+            return is_empty_test(e) or (isinstance(e, ast.BoolOp) and isinstance(e.op, ast.Or) and all(is_empty_test(v) or is_due_test(v) for v in e.values))
+
+        tests = [n for n in cfg.nodes if n.kind == "test"]
+        # idle: only when nothing is ready (the loop is about to go quiescent)
+        for x in idle:
+            if not any(requires(t.ast, is_empty_test) and x not in ExcEngine._reach_without_edge(cfg, t, "T") for t in tests):
+                rr.add(finding("SIB", lp, x.stmt, f"`{norm(x.stmt, 50)}` can run although input is ready: the idle callbacks would run while the loop is not about to go quiescent", construct=f"{norm(x.stmt, 50)} outside `if not ready`"))
+        # alarm: select()/poll() returning early with input proves nothing about the clock - the alarm is dispatched
+        # either after a time-out (nothing ready) or under an explicit due test
+        for x in pops:
+            if not any(requires(t.ast, timed_out_or_due) and x not in ExcEngine._reach_without_edge(cfg, t, "T") for t in tests):
+                rr.add(finding("SIB", lp, x.stmt, f"`{norm(x.stmt, 50)}` can run although input is ready and nothing has compared the clock with the alarm's due time: the wait was cut short by the input, so the alarm fires before it is due", construct=f"{norm(x.stmt, 50)} neither under `not ready` nor under a due test"))
+        # ... and a due alarm must not wait for the input to dry up: the dispatch is reachable with input ready
+        for x in pops:
+            starving = [t for t in tests if requires(t.ast, is_empty_test) and x not in ExcEngine._reach_without_edge(cfg, t, "T")]
+            rr.inst(f"{key}._loop: a due alarm is dispatched while input keeps arriving", True, {"loop": key, "dispatch_requires_no_input": bool(starving)})
+            if starving:
+                rr.add(finding("SIB", lp, x.stmt, f"`{norm(x.stmt, 50)}` runs only when no descriptor is ready (`{norm(starving[0].ast, 40)}`): a descriptor that stays readable (a pipe that is written faster than it is read) starves every alarm - its callback never runs", construct=f"alarm dispatch requires `not ready`"))
     return rr
 
 
@@ -568,5 +600,9 @@ MUTANTS = [
     Mut("asyncio-idle-handle-not-reset", _A, "AsyncioEventLoop._exception_handler", "                self._idle_asyncio_handle.cancel()\n                self._idle_asyncio_handle = None", "                self._idle_asyncio_handle.cancel()", "PASS|"),
     Mut("zmq-remove-idle-returns-none", "urwid/event_loop/zmq_loop.py", "ZMQEventLoop.remove_enter_idle", "        except KeyError:\n            return False\n\n        return True", "        except KeyError:\n            return False", "RET|"),
     Mut("trio-alarm-conditional-checkpoint", "urwid/event_loop/trio_loop.py", "TrioEventLoop._alarm_task", "            await self._sleep(seconds)\n", "            if seconds > 0:\n                await self._sleep(seconds)\n", "PASS|event_loop.trio_loop.TrioEventLoop._alarm_task"),
-    Mut("select-alarm-callback-no-idle-arming", _S, "SelectEventLoop._loop", "                alarm_callback()\n                self._did_something = True", "                alarm_callback()", ("PASS|", "ORDER|", "SIB|")),
+    Mut("select-alarm-callback-no-idle-arming", _S, "SelectEventLoop._loop", "            alarm_callback()\n            self._did_something = True", "            alarm_callback()", ("PASS|", "ORDER|", "SIB|")),
+    Mut("select-alarm-starved-by-input", _S, "SelectEventLoop._loop", "        elif tm is not None and (not ready or time.time() >= tm):", "        elif tm is not None and not ready:", "SIB|event_loop.select_loop.SelectEventLoop._loop|alarm dispatch requires"),
+    Mut("select-alarm-early-when-input-ready", _S, "SelectEventLoop._loop", "        elif tm is not None and (not ready or time.time() >= tm):", "        elif tm is not None:", "SIB|event_loop.select_loop.SelectEventLoop._loop"),
+    Mut("zmq-alarm-starved-by-input", "urwid/event_loop/zmq_loop.py", "ZMQEventLoop._loop", "        elif state == \"alarm\" and (not ready or time.time() >= self._alarms[0][0]):", "        elif state == \"alarm\" and not ready:", "SIB|event_loop.zmq_loop.ZMQEventLoop._loop|alarm dispatch requires"),
+    Mut("twin-select-due-test-mirrored", _S, "SelectEventLoop._loop", "(not ready or time.time() >= tm)", "(tm <= time.time() or not ready)", twin=True),
 ]
